@@ -292,6 +292,9 @@ def operations(draw):
             if style is None:
                 args = [I(7) if a[0] == 'c' else a for a in args]
                 style = 'join'
+            if style == 'join' and {'i', 'r'} <= {a[0] for a in args}:
+                # joining an integer atom and a real atom makes both real on the client already (homogeneous lists)
+                args = [I(int(a[1])) if a[0] == 'r' else a for a in args]
             return ('call', fn, tuple(args), style)
         return ('proxy', draw(st.sampled_from(['f', 'd'])), fn, tuple(args))
     if kind == 'dset':
